@@ -20,7 +20,8 @@ Step(r) == IF r.stepomit THEN 1 ELSE r.step
 (* what the specification says this case must produce; a record
    [ok |-> value] or [err |-> kind] *)
 Expected(r) ==
-  CASE r.kind \in {"slice", "method"} ->
+  CASE r.kind = "method" /\ Step(r) = 0 -> [ok |-> JArr(<<>>)]      \* Variable::slice cannot report an error: it returns, selecting nothing
+    [] r.kind \in {"slice", "method"} ->
          IF Step(r) = 0 THEN [err |-> "invalid_slice"]
          ELSE [ok |-> Picked(r, SliceL0(r.len, r.start, r.stop, Step(r)))]
     [] r.kind = "index" ->
